@@ -2,23 +2,6 @@ package hotline
 
 import "time"
 
-// c04Session runs the real connection handler over: handshake bytes, one login transaction, one further request.
-type c04Run struct {
-	srv        *Server
-	conn       *vRW
-	acct       *vAcctStub
-	ban        *vBanStub
-	other      *ClientConn
-	otherConn  *vRecConn
-	dispatched int
-	loginID    [4]byte
-	hs         []byte
-	loginField []byte
-	pwField    []byte
-	err        error
-	outbox     []Transaction
-}
-
 func c04Run1(banned bool, permanent bool) *c04Run {
 	r := &c04Run{}
 	srv, _ := NewServer()
@@ -65,39 +48,6 @@ func c04Run1(banned bool, permanent bool) *c04Run {
 	r.outbox = vDrainOutbox(srv)
 	return r
 }
-
-func (r *c04Run) handshakeValid() bool {
-	h := r.hs
-	return h[0] == 'T' && h[1] == 'R' && h[2] == 'T' && h[3] == 'P' && h[4] == 'H' && h[5] == 'O' && h[6] == 'T' && h[7] == 'L'
-}
-
-// the login the server must look up: the de-obfuscated login field, or "guest" when it is empty
-func (r *c04Run) wantedLogin() string {
-	if len(r.loginField) == 0 {
-		return "guest"
-	}
-	b := make([]byte, len(r.loginField))
-	for i := range r.loginField {
-		b[i] = 255 - r.loginField[i]
-	}
-	return string(b)
-}
-
-func (r *c04Run) credentialsOK() bool {
-	return r.acct.exists && r.wantedLogin() == r.acct.account.Login && "H:"+string(r.pwField) == r.acct.account.Password
-}
-
-func (r *c04Run) sentToOthers() int {
-	n := 0
-	for _, t := range r.outbox {
-		if t.ClientID == r.other.ID {
-			n++
-		}
-	}
-	return n
-}
-
-var c04HandshakeReply = []byte{'T', 'R', 'T', 'P', 0, 0, 0, 0}
 
 // Not banned: served exactly when handshake valid and credentials match; otherwise nothing is executed, nothing
 // reaches other users, and the peer sees at most the handshake reply plus one error reply carrying the login's ID.
